@@ -141,7 +141,8 @@ def isDir : Option Node → Bool
 structure FS where
   root : Node
   cwd : Comps          -- canonical working directory (relative search paths start here)
-  maxLinks : Nat       -- MAXSYMLINKS (40 on Linux)
+  maxLinks : Nat       -- MAXSYMLINKS (40 on Linux): what one `stat` may follow
+  extraLinks : Nat     -- `os.path.realpath` has no such limit (it detects loops instead): its budget beyond MAXSYMLINKS
 
 inductive OSErr where
   | enoent | enotdir | eloop | enametoolong
@@ -246,11 +247,12 @@ def pyIsFile (fs : FS) (p : PPath) : Except Exc Bool :=
   | .error (.os e) => if ignorable e then .ok false else .error .osError
 
 /-- `Path.resolve(strict=False)` : `os.path.realpath` never raises `OSError` in non-strict mode, but an
-embedded NUL is a `ValueError` from `lstat`, and a symlink loop becomes `RuntimeError`. -/
+embedded NUL is a `ValueError` from `lstat`, and a symlink loop becomes `RuntimeError` (a loop exhausts any
+budget; a long loop-free chain does not, hence `extraLinks`). -/
 def pyResolve (fs : FS) (p : PPath) : Except Exc Comps :=
   if hasBadChar p then .error .valueError
   else
-    match walk true fs.root fs.maxLinks (fs.start p) p.parts with
+    match walk true fs.root (fs.maxLinks + fs.extraLinks) (fs.start p) p.parts with
     | .ok (_, q) => .ok q
     | .error .eloop => .error .runtimeError
     | .error _ => .error .osError
